@@ -3,7 +3,9 @@
 (* h_file on carquet's own writer) for files with 2-8 REQUIRED/OPTIONAL columns, several      *)
 (* write_batch calls per column (carquet cuts pages at batch boundaries when page_size is     *)
 (* small, so every chunk has several pages) and 1-2 row groups. TLC enumerates                *)
-(* SchemaIds x BatchPlans x Groups x NullModes.                                               *)
+(* SchemaIds x BatchPlans x Groups x NullModes. The value of row r of column c is token      *)
+(* r + r \div (c+1) + c of the column's type: columns of the same type have different content, *)
+(* so a page of one column delivered for another one is visible in the values.                *)
 EXTENDS Naturals, Sequences, Values, TLC, Json
 CONSTANTS SchemaIds, BatchPlanIds, GroupChoices, NullModes
 VARIABLE st
@@ -33,7 +35,7 @@ BatchOps(cols, plan, mode, c, base) ==
                              LAMBDA r : ~(cols[c].rep = 1 /\ IsNull(mode, c, r)))
     IN [k \in 1..Len(plan) |->
           [op |-> "WriteBatch", c |-> c - 1, n |-> plan[k], withDefs |-> cols[c].rep = 1, defs |-> Defs(k),
-           vals |-> [q \in 1..Len(Rows(k)) |-> TokenAt(cols[c].type, cols[c].tlen, Rows(k)[q] * 7 + c)]]]
+           vals |-> [q \in 1..Len(Rows(k)) |-> TokenAt(cols[c].type, cols[c].tlen, Rows(k)[q] + (Rows(k)[q] \div (c + 1)) + c)]]]
 RECURSIVE Cat(_, _)
 Cat(f, n) == IF n = 0 THEN <<>> ELSE Cat(f, n - 1) \o f[n]
 GroupOps(cols, plan, mode, g) ==
